@@ -20,7 +20,7 @@ def run_seed(verif_seed, prop, tier, idx):
 
 class Result:
     __slots__ = ("prop", "cfg", "steps", "fingerprint", "nontrivial", "stats", "violation",
-                 "executed", "trace", "known")
+                 "executed", "trace", "known", "states")
 
     def __init__(self):
         self.violation = None
@@ -34,6 +34,7 @@ def _package(run, sc, viol):
     res.steps = run.steps
     res.stats = run.stats
     res.executed = run.executed
+    res.states = run.states
     if viol is None:
         try:
             run.finish()
